@@ -149,17 +149,29 @@ Definition rows (sh : list nat) : nat := match sh with [] => 1%nat | n :: _ => n
     an empty key list is kept as it is *)
 Definition to_num (v : value) : value := match v with VByte s (x :: d) => VNum s (map f_of_byte (x :: d)) | _ => v end.
 
+(** TryFrom<ArrayRep<T>> for Array<T> (/repo 61c09df): the Map / Metaless / Full forms are refused
+    unless the product of the shape equals the number of data elements (the List and Scalar forms
+    make their own shape).  The check comes after the variant is chosen: no other variant of the
+    same element type is tried when it fails. *)
+Definition check_shape (cur : bool) (m : option mval) : option mval :=
+  match m with
+  | Some (MV v l k) => if cur && negb (Nat.eqb (data_len v) (shape_prod (shape_of v))) then None else Some (MV v l k)
+  | None => None
+  end.
+
 Section Read.
   Variable cur : bool.
   (** [self] reads a nested Value (one level less fuel) *)
   Variable self : json -> option mval.
 
+  (** BoxedRep {b}: now only from the object form (/repo 55312e0); the derived reader before also
+      took the one-element sequence [v] *)
   Definition p_boxed (j : json) : option value :=
     match j with
     | JObj l => match assoc K_B l with
                 | Some x => match self x with Some (MV v None None) => Some v | _ => None end
                 | None => None end
-    | JArr [x] => match self x with Some (MV v None None) => Some v | _ => None end   (* a struct also reads from a sequence *)
+    | JArr [x] => if cur then None else match self x with Some (MV v None None) => Some v | _ => None end
     | _ => None end.
 
   (** element kinds: 0 byte, 1 num, 2 complex, 3 char, 4 box.  [p_coll] gives the value with shape [sh] *)
@@ -218,17 +230,18 @@ Section Read.
               | None => None end
           | _, _ => None end
       | _ => None end in
-    match map_try with
-    | Some m => Some m
-    | None =>
-    match j with
-    | JArr [s; c] => match p_shape s with
-                     | Some sh => option_map (fun v => MV v None None) (p_coll kind sh c)
-                     | None => None end
-    | JArr [s; c; m] => match p_shape s, p_meta m with
-                        | Some sh, Some lbl => option_map (fun v => MV v lbl None) (p_coll kind sh c)
-                        | _, _ => None end
-    | _ => None end end end end.
+    check_shape cur
+    (match map_try with
+     | Some m => Some m
+     | None =>
+     match j with
+     | JArr [s; c] => match p_shape s with
+                      | Some sh => option_map (fun v => MV v None None) (p_coll kind sh c)
+                      | None => None end
+     | JArr [s; c; m] => match p_shape s, p_meta m with
+                         | Some sh, Some lbl => option_map (fun v => MV v lbl None) (p_coll kind sh c)
+                         | _, _ => None end
+     | _ => None end end) end end.
 
   (** Value: Byte, Num, Complex, Char, Box - in this order *)
   Definition p_value (j : json) : option mval :=
